@@ -244,8 +244,11 @@ func (p *PeerPool) Allocate(ctx context.Context, subscriberID string, mac net.Ha
 // Falls back through the rendezvous hash ranking, skipping unhealthy peers.
 // If all remote peers are unhealthy, falls back to local allocation.
 func (p *PeerPool) getHealthyOwner(subscriberID string) string {
+	// Rank a private copy of the peer list: AddPeer and RemovePeer rewrite the
+	// backing array of p.peerNodes in place.
 	p.mu.RLock()
-	nodes := p.peerNodes
+	nodes := make([]string, len(p.peerNodes))
+	copy(nodes, p.peerNodes)
 	p.mu.RUnlock()
 
 	ranked := rendezvousRanked(subscriberID, nodes)
